@@ -308,8 +308,13 @@ struct Runner : IRunner {
         }
         cr.bases.push_back(0); // flag word (only read by deferred policies)
         cr.info->type = catalog_id(c, cr.alias);
-        cr.info->first_base = cr.bases.data();
-        cr.info->last_base = cr.bases.data() + bases.size();
+        if (bases.empty()) {
+            // what type_id_list<Policy, types<>> provides: no storage, no flag word
+            cr.info->first_base = cr.info->last_base = nullptr;
+        } else {
+            cr.info->first_base = cr.bases.data();
+            cr.info->last_base = cr.bases.data() + bases.size();
+        }
         cr.info->is_abstract = abs;
         auto it = static_vptr.find(c);
         if (it == static_vptr.end()) {
